@@ -71,8 +71,8 @@ def compare(ctx, u, slot, text=None):
         ctx.check("eager-equals-lazy:" + name, same(outs[0], outs[1]), (outs[0][:2], outs[1][:2]))
         ctx.check("eager-equals-unpickled:" + name, same(outs[0], outs[2]), (outs[0][:2], outs[2][:2]))
     if slot == 0:
-        ctx.check("equal-to-unpickled", (u == pk) is True)
-        ctx.check("equal-to-twin", (u == twin) is True)
+        ctx.check("equal-to-unpickled", u == pk)
+        ctx.check("equal-to-twin", u == twin)
     if not ctx.sym:
         # the real protocols, on the real build
         with P.activate():
